@@ -40,8 +40,16 @@ def id_token(v):
     if isinstance(v, int):
         return f'i{v}'
     if isinstance(v, float):
+        # the non-finite floats `json.loads` makes of `1e999` / `Infinity`, `-1e999` /
+        # `-Infinity`, `NaN` (tokens of lean/Aiorpcx/C02/Driver.lean)
+        if v != v:
+            return 'fnan'
+        if v in (float('inf'), float('-inf')):
+            return 'finf' if v > 0 else 'fninf'
+        if v == int(v):
+            return f'h{int(v) * 2}'           # exact, also for 1e308 (2 * v would overflow)
         h = v * 2
-        if h != h or h in (float('inf'), float('-inf')) or h != int(h):
+        if h != int(h):
             raise ValueError(f'float id {v!r} outside the modelled grid')
         return f'h{int(h)}'
     if isinstance(v, str):
@@ -53,6 +61,62 @@ def id_token(v):
     if isinstance(v, dict):
         return 'u1'
     raise ValueError(v)
+
+
+def same_id(a, b):
+    """do two decoded JSON ids denote the same value?  `==` with two repairs: a bool is not the
+    number it equals, and NaN (which `json.loads` accepts as a token, and which is != itself)
+    is the same id as NaN; +inf / -inf compare by `==`."""
+    if isinstance(a, bool) or isinstance(b, bool):
+        return a is b
+    if isinstance(a, float) and isinstance(b, float) and a != a and b != b:
+        return True
+    return a == b and (a is None) == (b is None)
+
+
+RAW_MARK = '\x00rawid%s\x00'
+
+
+def wire_bytes(payload, raw=None):
+    """the bytes the peer sends for `payload` (a single message or the member list of a
+    batch).  `raw` = {member index as str ("0" for a single message): JSON text of that
+    member's id} writes the id of those members as the given raw token: `json.dumps` can
+    produce `Infinity` / `-Infinity` / `NaN` for a float id of the payload but never the legal
+    JSON numbers `1e999` / `-1e999`, which `json.loads` reads as the same infinities.  The
+    payload carries the value the token denotes (checked here), so classification and the
+    oracle see what the library sees."""
+    if not raw:
+        return json.dumps(payload).encode()
+    members = list(payload) if isinstance(payload, list) else [payload]
+    for k in raw:
+        members[int(k)] = dict(members[int(k)], id=RAW_MARK % k)
+    text = json.dumps(members if isinstance(payload, list) else members[0])
+    for k, tok in raw.items():
+        mark = json.dumps(RAW_MARK % k)
+        assert text.count(mark) == 1, (payload, raw)
+        text = text.replace(mark, tok)
+    back = json.loads(text)
+    for k in raw:
+        orig = (payload if isinstance(payload, list) else [payload])[int(k)]['id']
+        got = (back if isinstance(payload, list) else [back])[int(k)]['id']
+        assert type(orig) is type(got) and same_id(orig, got), (orig, got, raw)
+    return text.encode()
+
+
+def case_wire(case):
+    """the bytes of the message of a case ({'single': ..} or {'members': [..]}, optional 'raw')"""
+    return wire_bytes(case['single'] if 'single' in case else case['members'], case.get('raw'))
+
+
+def resp_len(cls, result, rid):
+    """length of the response carrying `result` under `rid` as protocol class `cls` encodes
+    it; if the tree under test cannot encode a response under this id at all: the length it
+    would have (encoded under id 0, the id's JSON token substituted), so that generators and
+    the size clauses stay defined and the failure shows where the response is missing"""
+    try:
+        return len(cls.response_message(result, rid))
+    except Exception:   # noqa
+        return len(cls.response_message(result, 0)) - 1 + len(json.dumps(rid))
 
 
 def py_detect_one(p):
